@@ -308,14 +308,21 @@ def findCycle (deps : List (Chan × Chan)) (rk : List (Chan × Nat)) (start : Ch
         | none => path
   go fuel start []
 
+/-- the decision per fabric: the computed rank is valid for *all* dependencies of all routes -/
+def certOk (d : Desc) (n : Net) (f : Fabric) : Bool :=
+  let dp := deps d n f
+  let dd := dp.eraseDups
+  let chans := (dd.flatMap fun (a, b) => [a, b]).eraseDups
+  rankValid (rankChans chans dd (chans.length + 1)) dp
+
 def check (d : Desc) (n : Net) : List Finding :=
   if d.algo != .ID && d.algo != .SRC then [] else
   let fabrics := [reqF, rspF] ++ (if d.netType == .nw then [wideF] else [])
   fabrics.flatMap fun f =>
-    let dp := (deps d n f).eraseDups
-    let chans := (dp.flatMap fun (a, b) => [a, b]).eraseDups
-    let rk := rankChans chans dp (chans.length + 1)
-    if rankValid rk dp then [] else
+    if certOk d n f then [] else
+      let dp := (deps d n f).eraseDups
+      let chans := (dp.flatMap fun (a, b) => [a, b]).eraseDups
+      let rk := rankChans chans dp (chans.length + 1)
       match chans.find? (fun c => (rankOf rk c).isNone) with
       | some c =>
         let cyc := findCycle dp rk c (chans.length + 1)
